@@ -54,7 +54,7 @@ func specFiles(ctx *core.Ctx) (map[string][]byte, error) {
 var versions = []string{"1.1", "1.2", "1.3", "1.4", "1.5", "1.6", "1.7", "2.0"}
 
 // configFor rotates through the concrete configurations.
-func configFor(i int, needAES, needCrypt bool) Config {
+func configFor(i int, needAES, needCrypt, needMeta bool) Config {
 	for k := 0; ; k++ {
 		j := i + k
 		c := Config{Version: versions[j%len(versions)], Human: (j/8)%3 == 2, Seekable: (j/24)%2 == 0,
@@ -63,7 +63,7 @@ func configFor(i int, needAES, needCrypt bool) Config {
 		if needAES && c.Version < "1.6" {
 			continue
 		}
-		if needCrypt && (c.Version < "1.5") {
+		if needCrypt && c.Version < "1.5" || needMeta && c.Version < "1.4" {
 			continue
 		}
 		return c
@@ -88,9 +88,23 @@ func programs(ctx *core.Ctx, files map[string][]byte, limit int) ([][]Op, int, i
 			}
 			prog = append(prog, op)
 		}
-		if len(prog) > 0 && prog[len(prog)-1].Op == "CClose" {
-			progs = append(progs, prog)
+		// a path that stops early is completed: every program ends in a file
+		open := false
+		for _, o := range prog {
+			switch o.Op {
+			case "COpenStream", "OpenStreamIdentity":
+				open = true
+			case "CCloseStream":
+				open = false
+			}
 		}
+		if len(prog) == 0 || prog[len(prog)-1].Op != "CClose" {
+			if open {
+				prog = append(prog, Op{Op: "CCloseStream"})
+			}
+			prog = append(prog, Op{Op: "CClose"})
+		}
+		progs = append(progs, prog)
 	}
 	return progs, g.NumEdges(), covered, nil
 }
@@ -123,7 +137,9 @@ func c02Job(cfg c02.Config, prog []c02.Op, seed int64) job {
 		for k := range run.Written {
 			keys = append(keys, k)
 		}
-		sort.Slice(keys, func(i, j int) bool { return keys[i][0] < keys[j][0] || keys[i][0] == keys[j][0] && keys[i][1] < keys[j][1] })
+		sort.Slice(keys, func(i, j int) bool {
+			return keys[i][0] < keys[j][0] || keys[i][0] == keys[j][0] && keys[i][1] < keys[j][1]
+		})
 		for _, k := range keys {
 			w := run.Written[k]
 			wo := wobj{Ref: obj.Ref{Num: uint32(k[0]), Gen: uint16(k[1])}, Kind: "plain", Val: w.Value, ID: w.ID}
@@ -171,10 +187,11 @@ func docJob(d docParams) job {
 }
 
 // runJobs executes the jobs on the real Writer and observes the files.
-func runJobs(jobs []job) ([]Record, int, error) {
+func runJobs(jobs []job) ([]Record, map[string]int, error) {
 	recs := make([]Record, len(jobs))
 	have := make([]bool, len(jobs))
 	errs := make([]error, len(jobs))
+	why := make([]string, len(jobs))
 	var wg sync.WaitGroup
 	sem := make(chan struct{}, 16)
 	for i := range jobs {
@@ -190,6 +207,10 @@ func runJobs(jobs []job) ([]Record, int, error) {
 			}()
 			p, err := jobs[i]()
 			if errors.Is(err, errNotClosed) {
+				why[i] = err.Error()
+				if k := strings.LastIndex(why[i], ": "); k > 0 && len(why[i]) > 80 {
+					why[i] = why[i][:80]
+				}
 				return
 			}
 			if err != nil {
@@ -205,18 +226,18 @@ func runJobs(jobs []job) ([]Record, int, error) {
 	}
 	wg.Wait()
 	var out []Record
-	skipped := 0
+	skipped := map[string]int{}
 	for i := range jobs {
 		if errs[i] != nil {
 			if _, ok := errs[i].(*core.InfraError); ok {
-				return nil, 0, errs[i]
+				return nil, nil, errs[i]
 			}
-			return nil, 0, core.Infra("job %d: %v", i, errs[i])
+			return nil, nil, core.Infra("job %d: %v", i, errs[i])
 		}
 		if have[i] {
 			out = append(out, recs[i])
 		} else {
-			skipped++
+			skipped[why[i]]++
 		}
 	}
 	return out, skipped, nil
@@ -245,6 +266,14 @@ func run(ctx *core.Ctx) error {
 		if err != nil {
 			return err
 		}
+		var zero []string
+		for _, a := range res.ZeroCoverage {
+			// crypt filters need PDF 1.5: the model ties them to OBJSTM
+			if !(fam == "FALSE" && a == "OpenStreamIdentity") {
+				zero = append(zero, a)
+			}
+		}
+		res.ZeroCoverage = zero
 		if ctx.Thorough() && len(res.ZeroCoverage) > 0 {
 			return core.Infra("design model %s has actions that are never taken: %v", cfg, res.ZeroCoverage)
 		}
@@ -260,17 +289,20 @@ func run(ctx *core.Ctx) error {
 	per := ctx.Pick(1, 3)
 	nprog := 0
 	for i, prog := range progs {
-		needAES, needCrypt := false, false
+		needAES, needCrypt, needMeta := false, false, false
 		for _, o := range prog {
 			if o.Op == "Configure" && !o.EMD {
 				needAES = true
+			}
+			if o.Op == "Configure" && o.Meta {
+				needMeta = true
 			}
 			if o.Op == "OpenStreamIdentity" {
 				needCrypt = true
 			}
 		}
 		for k := 0; k < per; k++ {
-			jobs = append(jobs, programJob(configFor(i*per+k+int(ctx.Seed)*13, needAES, needCrypt), prog, seeds.Int63()))
+			jobs = append(jobs, programJob(configFor(i*per+k+int(ctx.Seed)*13, needAES, needCrypt, needMeta), prog, seeds.Int63()))
 			nprog++
 		}
 	}
@@ -289,16 +321,25 @@ func run(ctx *core.Ctx) error {
 			return err
 		}
 		for i, prog := range ps {
-			closes := false
+			open, closes := false, false
 			for _, o := range prog {
-				if o.Op == "Close" {
+				switch o.Op {
+				case "OpenStream":
+					open = !o.Err
+				case "CloseStream":
+					open = false
+				case "Close":
 					closes = true
 				}
 			}
 			if !closes {
-				continue
+				prog = append([]c02.Op(nil), prog...)
+				if open {
+					prog = append(prog, c02.Op{Op: "CloseStream", Ns: []int{}, Vs: []string{}})
+				}
+				prog = append(prog, c02.Op{Op: "Close", Ns: []int{}, Vs: []string{}})
 			}
-			c := configFor(i+int(ctx.Seed)*7, false, false)
+			c := configFor(i+int(ctx.Seed)*7, false, false, false)
 			cc := c02.Config{Version: c.Version, Human: !fam.ObjStm && c.Version >= "1.5", Seekable: fam.Seekable, Enc: c.Enc}
 			if fam.ObjStm && c.Version < "1.5" {
 				cc.Version = []string{"1.5", "1.6", "1.7", "2.0"}[i%4]
@@ -327,8 +368,13 @@ func run(ctx *core.Ctx) error {
 	if err != nil {
 		return err
 	}
+	nskip := 0
+	for _, k := range core.SortedKeys(skipped) {
+		nskip += skipped[k]
+		ctx.Logf("  %d programs end without a file: %s", skipped[k], k)
+	}
 	ctx.Logf("real Writer: %d CryptScope programs, %d PdfWriter (C02) programs, %d C09 documents -> %d encrypted files observed (%d programs end without a file)",
-		nprog, nc02, ndoc, len(recs), skipped)
+		nprog, nc02, ndoc, len(recs), nskip)
 
 	// 3. the reverse direction
 	foreign, err := reverse(ctx)
@@ -443,7 +489,11 @@ func classify(r Record) (string, string) {
 	for i, a := range r.Items {
 		for _, b := range r.Items[i+1:] {
 			if a.Cipher == "AES" && b.Cipher == "AES" && a.IV == b.IV {
-				return fmt.Sprintf("written/%s/iv-reuse/%s+%s", pre, a.Where, b.Where), fmt.Sprintf("objects %d %d (%s) and %d %d (%s) use the same initialisation vector %s", a.Num, a.Gen, a.Where, b.Num, b.Gen, b.Where, a.IV)
+				w1, w2 := a.Where, b.Where
+				if w2 < w1 {
+					w1, w2 = w2, w1
+				}
+				return fmt.Sprintf("written/%s/iv-reuse/%s+%s", pre, w1, w2), fmt.Sprintf("objects %d %d (%s) and %d %d (%s) use the same initialisation vector %s", a.Num, a.Gen, a.Where, b.Num, b.Gen, b.Where, a.IV)
 			}
 		}
 	}
@@ -521,9 +571,12 @@ func confirmAll(ctx *core.Ctx, files map[string][]byte, rejected []Record) error
 
 // reexecute runs a stored case again.
 func reexecute(raw any) (Record, error) {
-	data, err := json.Marshal(raw)
-	if err != nil {
-		return Record{}, core.Infra("replay: %v", err)
+	data, ok := raw.(json.RawMessage)
+	if !ok {
+		var err error
+		if data, err = json.Marshal(raw); err != nil {
+			return Record{}, core.Infra("replay: %v", err)
+		}
 	}
 	var c struct {
 		Kind    string          `json:"kind"`
@@ -576,10 +629,7 @@ func replay(ctx *core.Ctx, raw json.RawMessage) error {
 	if err != nil {
 		return err
 	}
-	var c any
-	if err := json.Unmarshal(raw, &c); err != nil {
-		return core.Infra("replay: %v", err)
-	}
+	c := raw // kept as bytes: 64 bit seeds do not survive a float64
 	for attempt := 0; attempt < 3; attempt++ {
 		rec, err := reexecute(c)
 		if err != nil {
